@@ -48,6 +48,8 @@ type Scenario struct {
 	ReachTgt  int                        `json:"reach_tgt,omitempty"`
 	BarrierN  int                        `json:"barrier_n,omitempty"`
 
+	// EmitGoexit: the scheduler state emitter calls runtime.Goexit at its first report.
+	EmitGoexit bool `json:"emit_goexit,omitempty"`
 	// UserCtx: the directive's context is an implementation of context.Context
 	// from outside the standard library (own Done channel).
 	UserCtx      bool   `json:"user_ctx,omitempty"`
@@ -515,6 +517,23 @@ func GenScenario(p *Program, r *Rand, exec uint64, tagName string, k int) *Scena
 				o.Gate = true
 				s.Out[f.ID] = o
 				s.GateOpen = "report"
+				break
+			}
+		}
+	case "emitgx":
+		// The scheduler state emitter kills the goroutine it is called on
+		// (runtime.Goexit, what t.FailNow does in a test double) at its first
+		// report. One function runs for 130 ms; the context is cancelled once it
+		// has started, so the caller gets out whatever becomes of the scheduler. Only termination, containment and
+		// leaks are judged.
+		for _, f := range fns {
+			if f.Role == "task" || f.Role == "ptask" {
+				o := s.Out[f.ID]
+				o.Delay, o.DelayArg = 2, 130000 // runs past the first report (100 ms)
+				s.Out[f.ID] = o
+				s.CancelOnFn = f.ID
+				s.WatchFns = []int{f.ID}
+				s.EmitGoexit = true
 				break
 			}
 		}
